@@ -182,6 +182,15 @@ def oracle(ctx, kind, p):
                                    no_constants_like=like)
                 if not _trees.wellformed(node, rm):
                     continue
+                if not messy and o['canonicalize_roles'] and rng.random() < 0.5:
+                    # over-inverted spellings of the same roles (pairs of '-of' added): with
+                    # --canonicalize-roles the stream means the same and the output is a fixed point
+                    def over(nd):
+                        return (nd[0], [((r.partition('~')[0] + '-of-of' * rng.choice([0, 0, 1, 1, 2])
+                                          + r.partition('~')[1] + r.partition('~')[2]) if r != '/' else r,
+                                         over(t) if isinstance(t, tuple) else t) for r, t in nd[1]])
+                    node = over(node)
+                    ctx.count('over_inverted_streams')
                 if messy:
                     node = T.mangle(rng, node, rm)
                     if any(n[0] is None for n in T.nodes(node)):
